@@ -5,10 +5,11 @@ CONSTANTS
   MaxMsgs = 2
   LenMode = "bytes"
   IdDecode = "strict"
+  NullResult = "ok"
   Variants <- VariantsDef
   ChunkMax = 1
   AllCuts = FALSE
 INIT Init
 NEXT SimNext
-INVARIANTS ReadIsPrefixOfSent Lossless MalformedGivesError NeverWaitsAfterEOF ChunkingIrrelevant IdsPreserved PrintBehaviour
+INVARIANTS ReadIsPrefixOfSent Lossless MalformedGivesError NeverWaitsAfterEOF ChunkingIrrelevant IdsPreserved PayloadsPreserved PrintBehaviour
 CHECK_DEADLOCK FALSE
